@@ -141,7 +141,9 @@ prop('C10', title='Link-layer envelopes are transparent: Nack, PIT token and wra
                 'dispatches at most once per packet and a Nack header leads to _on_nack only; the reply of an Interest that arrived with a '
                 'PIT token is 64 L (62 |t| t)(50 |d| d) with identical token and unmodified payload (LpPacket unrolled), bare without token.',
      level_note='make_network_nack: exact layout 64 L (fd0320 n (fd0321 w r))(50 |i| i) for every reason < 2^64 and every Interest '
-                '(LpPacket unrolled) is proved as well; table-level Nack handling: see C03. Several tokens in all orders are bounded.',
+                '(LpPacket unrolled) is proved as well, and so is the header of the no-copy send path (64 L (62 |t| t) 50 |d| followed by the '
+                'Data itself, L covering the Data; one defect found and fixed there); table-level Nack handling: see C03. Several tokens '
+                'in all orders are bounded.',
      technique=T_MIXED)
 
 prop('C11', title='A compiled trust schema matches exactly the names its source text describes', level='exploration',
